@@ -43,7 +43,8 @@ type c12Knobs struct {
 	SigMethod    string `json:"signature_method"` // "" = requests are not signed
 	SSOQuery     string `json:"idp_sso_query"`    // query string already present in the IdP's SSO endpoint URLs
 	SLOQuery     string `json:"idp_slo_query"`
-	NameIDFormat string `json:"authn_nameid_format"` // "" (unset) or a format URN
+	SLOFrag      string `json:"idp_slo_fragment,omitempty"` // fragment the IdP's single-logout endpoint URLs end in (a single-page portal routing on it), "#..." or ""
+	NameIDFormat string `json:"authn_nameid_format"`        // "" (unset) or a format URN
 	ForceAuthn   *bool  `json:"force_authn"`
 	ReqCtx       bool   `json:"requested_authn_context"`
 	ReqCtxCmp    string `json:"requested_authn_context_comparison,omitempty"` // "" (left unset: the schema default is exact), exact, minimum, maximum, better
@@ -187,6 +188,7 @@ func genSPEgress(g *Rng, tier string) *Plan {
 	k := c12Knobs{
 		SSOQuery: Pick(g, "", "", "tenant=a&x=1", "t=a%26b+c&flag"),
 		SLOQuery: Pick(g, "", "", "tenant=a&x=1", "t=a%26b+c&flag"),
+		SLOFrag:  Pick(g, "", "", "", "#/slo", "#/portal?view=slo"),
 		NameIDFormat: Pick(g, "", string(saml.UnspecifiedNameIDFormat), string(saml.TransientNameIDFormat), string(saml.EmailAddressNameIDFormat), string(saml.PersistentNameIDFormat),
 			"urn:oasis:names:tc:SAML:1.1:nameid-format:X509SubjectName", "urn:oasis:names:tc:SAML:1.1:nameid-format:WindowsDomainQualifiedName", "urn:oasis:names:tc:SAML:2.0:nameid-format:kerberos", "urn:example:deployment:employee-number"),
 		ReqCtx:     g.Bool(0.4),
@@ -375,8 +377,8 @@ func c12BuildWorld(k c12Knobs) *c12World {
 		saml.HTTPPostBinding:     c12WithQuery(c12IdPBase+"/sso/post", k.SSOQuery),
 	}
 	w.slo = map[string]string{
-		saml.HTTPRedirectBinding: c12WithQuery(c12IdPBase+"/slo/redirect", k.SLOQuery),
-		saml.HTTPPostBinding:     c12WithQuery(c12IdPBase+"/slo/post", k.SLOQuery),
+		saml.HTTPRedirectBinding: c12WithQuery(c12IdPBase+"/slo/redirect", k.SLOQuery) + k.SLOFrag,
+		saml.HTTPPostBinding:     c12WithQuery(c12IdPBase+"/slo/post", k.SLOQuery) + k.SLOFrag,
 	}
 	md := idpMetadataFor(idpEntity, "", "", []KeyPair{rsaKeys[0]}, nil, "signing")
 	md.IDPSSODescriptors[0].SingleSignOnServices = []saml.Endpoint{
@@ -894,14 +896,17 @@ func (w *c12World) decode(em *c12Emission) (*c12Decoded, *c12Problem) {
 		d.rawQuery = rawQuery
 		ps := c12ParseQuery(rawQuery)
 		var prob *c12Problem
-		want := em.dest
+		want, wantFrag := em.dest, ""
+		if i := strings.IndexByte(want, '#'); i >= 0 {
+			want, wantFrag = want[:i], want[i+1:] // the endpoint's own fragment stays at the end of the URL, behind the query
+		}
 		if i := strings.IndexByte(want, '?'); i >= 0 {
 			want = want[:i]
 		}
 		switch {
 		case base != want:
 			prob = &c12Problem{"wrong-endpoint", want, base, ""}
-		case fragment != "":
+		case fragment != wantFrag:
 			prob = &c12Problem{"fragment", "no fragment (a fragment never reaches the IdP)", fmt.Sprintf("fragment %q", short(fragment, 60)), "parameters " + c12Names(ps)}
 		default:
 			payload, prob = c12CheckParams(ps, endpoint, msgParam, em.rsKnown, em.expectRS, em.msg == "authn")
@@ -1745,6 +1750,9 @@ func simplifySPEgress(p *Plan) []*Plan {
 	}
 	if k.SSOQuery != "" {
 		withK(func(k *c12Knobs) { k.SSOQuery = "" })
+	}
+	if k.SLOFrag != "" {
+		withK(func(k *c12Knobs) { k.SLOFrag = "" })
 	}
 	if k.SLOQuery != "" {
 		withK(func(k *c12Knobs) { k.SLOQuery = "" })
